@@ -76,11 +76,11 @@ def execute(case, clock, built, order_rots, pre=("none", "none"), same=False):
     try:
         oa, ob = sync.associate_trajectories(ta, tb, max_diff=md, offset_2=off)
     except sync.SyncException:
-        unchanged = geom.snapshot(ta) == sa and geom.snapshot(tb) == sb
+        unchanged = geom.same_snapshot(geom.snapshot(ta), sa) and geom.same_snapshot(geom.snapshot(tb), sb)
         return {"kind": "raise", "exc": "SyncException", "unchanged": unchanged}
     except Exception as e:  # any other exception type is an outcome P does not allow
         return {"kind": "raise", "exc": type(e).__name__, "unchanged": True}
-    unchanged = geom.snapshot(ta) == sa and geom.snapshot(tb) == sb
+    unchanged = geom.same_snapshot(geom.snapshot(ta), sa) and geom.same_snapshot(geom.snapshot(tb), sb)
     o = {"kind": "ok", "a": _rows(oa, case["A"], clock, 100, rots), "b": _rows(ob, case["B"], clock, 100 if same else 200, rots),
          "unchanged": unchanged}
     # mutate the outputs, the inputs must still be unchanged (independence; also C16)
@@ -90,7 +90,7 @@ def execute(case, clock, built, order_rots, pre=("none", "none"), same=False):
         oa.transform(geom.se3(geom.o24_matrix((2, -1, 3)), [1, 2, 3]))
     except Exception:
         pass
-    if not (geom.snapshot(ta) == sa and geom.snapshot(tb) == sb):
+    if not (geom.same_snapshot(geom.snapshot(ta), sa) and geom.same_snapshot(geom.snapshot(tb), sb)):
         o["unchanged"] = False
     return o
 
